@@ -884,6 +884,15 @@ class DFA:
                 fake_start[to_else] = chained_dfa.starting_state
                 fake_start[to_else].fallthrough(True).handles_else()
                 chained_dfa.starting_state = fake_start
+            elif not valid and not to_else and isinstance(chained_dfa.starting_state, DFConditionPoint):
+                # Every path through the condition points ends in a state without transitions so far (an if holding only a yield as
+                # the last statement of a loop body or of the program): whatever comes next is decided behind the condition point
+                fake_start = DFState()
+                chained_dfa.add(fake_start)
+
+                fake_start[DFTransition.Else] = chained_dfa.starting_state
+                fake_initial_transition = fake_start[DFTransition.Else].fallthrough(True)
+                chained_dfa.starting_state = fake_start
 
         # If the caller wants to chain actions into a DFA which potentially matches the empty string, we have to place the actions onto 
         # transitions going into the sub_states, instead of on transitions coming out of them that we generate. This adds more opportunities
